@@ -521,6 +521,7 @@ def run(prog, rep):
         fn = apg.methods.get(rfn)
         if fn is None:
             raise AnalysisError(f'{rfn} vanished')
+        fn = inline(prog, apg, fn, exclude=tuple(child_builder.values()))
         keys_read = set()
         dparams = set(func_params(fn))
         for n in ast.walk(fn):
